@@ -175,7 +175,7 @@ pub struct SimStats {
   pub order_flipped: u64, pub both_devices_ready: u64, pub kbd_unplugged: u64, pub tab_unplugged: u64, pub arrival_during_drain: u64,
   pub backoff_sleeps: u64, pub multi_event_wakeups: u64, pub max_events_one_wakeup: u64, pub timer_ticks: u64, pub trace_cap_hit: u64,
   pub os_write_fault: [u64; 3], pub os_read_fault: u64, pub real_polls_compared: u64,
-  pub os_poll_fault: [u64; 3], pub os_sysread_fault: u64, pub os_sysread_once: u64, pub zero_timeout_looks: u64, pub sys_extra_devices_listed: u64, pub os_syswrite_fault: [u64; 4], pub syswrite_partial_frames: u64, pub syswrite_retried_ok: u64, pub sys_writes: u64, pub sys_reads_kbd: u64, pub sys_reads_tab: u64, pub sys_waits: u64, pub sys_wait_timeouts: u64, pub sys_wait_eintr: u64, pub sys_wait_events: u64, pub sys_stale_dropped: u64, pub sys_fabricated_ready: u64, pub sys_polls_through_real_driver: u64, pub sys_subms_truncated: u64,
+  pub os_poll_fault: [u64; 3], pub os_sysread_fault: u64, pub os_sysread_once: u64, pub busy_from_remembered_eagain: u64, pub zero_timeout_looks: u64, pub sys_extra_devices_listed: u64, pub os_syswrite_fault: [u64; 4], pub syswrite_partial_frames: u64, pub syswrite_retried_ok: u64, pub sys_writes: u64, pub sys_reads_kbd: u64, pub sys_reads_tab: u64, pub sys_waits: u64, pub sys_wait_timeouts: u64, pub sys_wait_eintr: u64, pub sys_wait_events: u64, pub sys_stale_dropped: u64, pub sys_fabricated_ready: u64, pub sys_polls_through_real_driver: u64, pub sys_subms_truncated: u64,
 }
 
 pub trait ByteLayer {
@@ -249,6 +249,8 @@ pub struct Sim<'a> {
   sends_done: usize,
   hw_failed: bool,
   kbd_sabotaged: bool,
+  /// read(2) calls seen on the device descriptor when each waiting event was written (hybrid runs)
+  kbd_stamps: VecDeque<u32>, tab_stamps: VecDeque<u32>,
   /// a transient read(2) failure happened and has not been reported yet: how many of the events
   /// waiting in the device queue may still be handed out before the driver owes the error
   once_owed: Option<usize>,
@@ -281,7 +283,7 @@ impl<'a> Sim<'a> {
     reset_sim_slept_us();
     Sim { tape, cfg: case.cfg.clone(), kbd: case.kbd.iter().cloned().collect(), tab: if case.has_tablet { case.tab.iter().cloned().collect() } else { VecDeque::new() }, has_tablet: case.has_tablet,
       kbd_ready: VecDeque::new(), tab_ready: VecDeque::new(), kbd_notify: false, tab_notify: false, trace: vec![], fail_at: case.fail_at, calls: 0,
-      kbd_ended: false, tab_ended: false, kbd_end_at: case.kbd_end_at, tab_end_at: if case.has_tablet { case.tab_end_at } else { None }, extra_ticks: case.extra_ticks, interrupts: 0, in_drain: false, write_fault: if case.hybrid { case.write_fault } else { None }, read_fault: if case.hybrid { case.read_fault } else { None }, kbd_reads_done: 0, tab_reads_done: 0, sends_done: 0, hw_failed: false, kbd_sabotaged: false, once_owed: None, once_done: false, tab_sabotaged: false, kbd_hup_checked: false, tab_hup_checked: false,
+      kbd_ended: false, tab_ended: false, kbd_end_at: case.kbd_end_at, tab_end_at: if case.has_tablet { case.tab_end_at } else { None }, extra_ticks: case.extra_ticks, interrupts: 0, in_drain: false, write_fault: if case.hybrid { case.write_fault } else { None }, read_fault: if case.hybrid { case.read_fault } else { None }, kbd_reads_done: 0, tab_reads_done: 0, sends_done: 0, hw_failed: false, kbd_sabotaged: false, kbd_stamps: VecDeque::new(), tab_stamps: VecDeque::new(), once_owed: None, once_done: false, tab_sabotaged: false, kbd_hup_checked: false, tab_hup_checked: false,
       stats: SimStats::default(), bytes, byte_error: None, byte_notes: vec![],
       // runaway guard; scaled for marathon scripts
       cap: TRACE_CAP.max(10 * (case.kbd.len() + case.tab.len()) + 1000),
@@ -308,6 +310,7 @@ impl<'a> Sim<'a> {
         if let Some(b) = self.bytes.as_mut() { b.push_kbd(&e, &mut self.tape, &self.script_phys); }
         fold1(&mut self.script_phys, &e);
         self.kbd_ready.push_back(e); self.kbd_notify = true;
+        if let Some(b) = self.bytes.as_ref() { self.kbd_stamps.push_back(crate::sysseam::reads_seen(b.device_fds().0)); }
         if self.in_drain { self.stats.arrival_during_drain += 1; }
         continue;
       }
@@ -316,6 +319,7 @@ impl<'a> Sim<'a> {
         if self.tab_sabotaged { continue; }
         if let Some(b) = self.bytes.as_mut() { b.push_tab(on, &mut self.tape); }
         self.tab_ready.push_back(on); self.tab_notify = true;
+        if let Some(b) = self.bytes.as_ref() { self.tab_stamps.push_back(crate::sysseam::reads_seen(b.device_fds().1)); }
         if self.in_drain { self.stats.arrival_during_drain += 1; }
         continue;
       }
@@ -578,7 +582,15 @@ impl<'a> Sim<'a> {
       }
       Ok(VNext::Busy) => {
         if dry_and_gone { if self.byte_error.is_none() { self.byte_error = Some("[driver] the keyboard was unplugged (read fails with ENODEV) but the real driver told the loop Busy: the loop would never stop".into()); } }
-        else if let Some(e) = self.kbd_ready.front().cloned() { self.wire_note(format!("real reader reported EAGAIN although {} was written", ev_str(&e))); }
+        else if let Some(e) = self.kbd_ready.front().cloned() {
+          // a reader that reads ahead may answer from an EAGAIN it got earlier: that is the truth as of
+          // its last read(2), and what was written since is announced again (a new edge). Only a reader
+          // that has made a read(2) since the event was written, and still says "nothing", withholds it
+          while self.kbd_stamps.len() > self.kbd_ready.len() { self.kbd_stamps.pop_front(); }
+          let since = crate::sysseam::reads_seen(self.bytes.as_ref().unwrap().device_fds().0);
+          if self.kbd_stamps.front() == Some(&since) { self.stats.busy_from_remembered_eagain += 1; }
+          else { self.wire_note(format!("real reader reported EAGAIN although {} was written", ev_str(&e))); }
+        }
         self.trace.push(Item::NextK { res: None, end: false, t_out: self.now(), phantom: false });
         Ok(VNext::Busy)
       }
@@ -637,7 +649,12 @@ impl<'a> Sim<'a> {
       }
       Ok(VNext::Busy) => {
         if dry_and_gone { if self.byte_error.is_none() { self.byte_error = Some("[driver] the tablet switch was unplugged (read fails with ENODEV) but the real driver told the loop Busy".into()); } }
-        else if !self.tab_ready.is_empty() { self.wire_note("[tablet] the real tablet reader reported EAGAIN although a switch event was written".into()); }
+        else if !self.tab_ready.is_empty() {
+          while self.tab_stamps.len() > self.tab_ready.len() { self.tab_stamps.pop_front(); }
+          let since = crate::sysseam::reads_seen(self.bytes.as_ref().unwrap().device_fds().1);
+          if self.tab_stamps.front() == Some(&since) { self.stats.busy_from_remembered_eagain += 1; }
+          else { self.wire_note("[tablet] the real tablet reader reported EAGAIN although a switch event was written".into()); }
+        }
         self.trace.push(Item::NextT { res: None, end: false, t_out: self.now(), phantom: false });
         Ok(VNext::Busy)
       }
